@@ -137,3 +137,10 @@ def case_class(case, r):
         t = sum(c for _, c in case["h"])
         return "h:" + ("empty" if not case["h"] else "zero-total" if t == 0 else "pos")
     return "p:" + case["shape"] + (":sampled" if not r.get("exhaustive", True) else "")
+
+
+UNITS_NAME = "answer_paths_explored"
+
+
+def units(case, r):
+    return len(r.get('paths', []))
